@@ -97,6 +97,19 @@ Proof.
   - apply ds_forall. reflexivity.
 Qed.
 
+Lemma constraints_cs_shape G defs cs :
+  components G = Some (defs, cs) -> (forall f, In f G -> rule_like f) ->
+  forall c, In c cs -> cs_shape (universal_closure c).
+Proof.
+  intros Hc HG c Hc'. apply components_spec in Hc. destruct Hc as [_ [-> _]].
+  apply in_flat_map in Hc'. destruct Hc' as [f [Hf Hcf]].
+  unfold split_constraints in Hcf. destruct (split f) as [[F a|c0]|] eqn:Es; try contradiction.
+  destruct Hcf as [<-|[]]. apply split_constraint in Es. destruct Es as [-> [_ [F HF]]].
+  destruct (HG f Hf) as [B [H [E HB]]]. rewrite E in *.
+  unfold universal_closure. apply cs_quantify.
+  destruct HF as [HF|HF]; [|discriminate]. injection HF as <- ->. apply cs_imp. exact HB.
+Qed.
+
 Theorem completion_classified G ins D :
   completion G ins = Some D -> (forall f, In f G -> rule_like f) ->
   forall d, In d D ->
@@ -104,14 +117,7 @@ Theorem completion_classified G ins D :
 Proof.
   intros HD HG d Hd. apply completion_structure in HD. destruct HD as [defs [cs [Hc [_ ->]]]].
   apply in_app_iff in Hd. destruct Hd as [Hd|Hd].
-  - right. apply in_map_iff in Hd. destruct Hd as [c [<- Hc']].
-    apply components_spec in Hc. destruct Hc as [_ [-> _]].
-    apply in_flat_map in Hc'. destruct Hc' as [f [Hf Hcf]].
-    unfold split_constraints in Hcf. destruct (split f) as [[F a|c0]|] eqn:Es; try contradiction.
-    destruct Hcf as [<-|[]]. apply split_constraint in Es. destruct Es as [-> [_ [F HF]]].
-    destruct (HG f Hf) as [B [H [E HB]]]. rewrite E in *.
-    unfold universal_closure. apply cs_quantify.
-    destruct HF as [HF|HF]; [|discriminate]. injection HF as <- ->. apply cs_imp. exact HB.
+  - right. apply in_map_iff in Hd. destruct Hd as [c [<- Hc']]. eapply constraints_cs_shape; eauto.
   - left. apply in_map_iff in Hd. destruct Hd as [e [<- _]]. eauto.
 Qed.
 
